@@ -31,7 +31,18 @@ def make_doc(c, first=None):
     deep = odml.Section(name="deep", type="t", parent=sub1)
     if first is not None:
         first(doc)
-    if v == "warnings":
+    if n == 5:
+        # the defect sits in a copy that resolving a link brought in and that was edited afterwards
+        s2.link = "/s1"
+        msub = s2.sections["sub"]
+        if v == "missing-type":
+            msub.type = None
+        elif v == "dup-ids":
+            msub.new_id(s1.id)
+        elif v == "dup-names":
+            q = odml.Section(name="other", type="t", parent=s2)
+            q._name = "sub"
+    elif v == "warnings":
         s2.type = "n.s."
     elif v == "missing-type":
         (s2 if n == 1 else sub1 if n == 2 else deep).type = None
